@@ -64,7 +64,7 @@ def main():
             continue
         wts[n] = wt
         for s in seeds:
-            jobs.append((n, meta["breaks_property"], wt, s, a.tier))
+            jobs.append((n, meta.get("detect_with", meta["breaks_property"]), wt, s, a.tier))
     res = {}
     with ThreadPoolExecutor(a.jobs) as ex:
         for name, seed, code in ex.map(lambda j: run(*j), jobs):
